@@ -158,16 +158,20 @@ def pointKeep {α : Type} (lt : α → α → Bool) (v : Nat → α) (c : Clause
   else Keep.always
 
 /-- `IntervalEvaluator::push`'s keep function on the per-slot interval bounds
-    (`i[a].lower() > i[b].upper()` is `lt (hi b) (lo a)`) -/
-def intervalKeep {β : Type} (lt : β → β → Bool) (lo hi : Nat → β) (c : Clause) : Keep :=
+    (`i[a].lower() > i[b].upper()` is `lt (hi b) (lo a)`) and maybe-NaN flags (`safe s` is
+    `i[s].isSafe()`).  Mirrors the code after fix c73cfff: the point kernels return operand `a`
+    whenever either operand is NaN, so `b` may replace the clause only if neither operand can be
+    NaN; note the different order of the two tests in the `max` and `min` branches. -/
+def intervalKeep {β : Type} (lt : β → β → Bool) (lo hi : Nat → β) (safe : Nat → Bool)
+    (c : Clause) : Keep :=
   if c.op = Op.max then
     if c.a = c.b then Keep.a
     else if lt (hi c.b) (lo c.a) then Keep.a
-    else if lt (hi c.a) (lo c.b) then Keep.b
+    else if lt (hi c.a) (lo c.b) && safe c.a && safe c.b then Keep.b
     else Keep.both
   else if c.op = Op.min then
     if c.a = c.b then Keep.a
-    else if lt (hi c.b) (lo c.a) then Keep.b
+    else if lt (hi c.b) (lo c.a) && safe c.a && safe c.b then Keep.b
     else if lt (hi c.a) (lo c.b) then Keep.a
     else Keep.both
   else Keep.always
